@@ -6,7 +6,7 @@ import gen
 PRE_KINDS = ["pre_detach", "pre_attach", "pre_detach_children", "pre_attach_children"]
 POST_KINDS = ["post_detach", "post_attach", "post_detach_children", "post_attach_children"]
 ALL_KINDS = PRE_KINDS + POST_KINDS
-NM_CLASSES = ["mixin", "node", "anynode", "symlink"]
+NM_CLASSES = ["mixin", "node", "anynode", "symlink", "eqmixin"]
 
 
 # ----------------------------------------------------------------------------------------------
@@ -53,7 +53,8 @@ def all_calls(k, maxlen, nonnode=True):
         elems = list(range(k)) + (["x"] if nonnode else [])
         for L in range(maxlen + 1):
             for xs in itertools.product(elems, repeat=L):
-                calls.append({"op": "sc", "n": n, "xs": list(xs)})
+                # the right-hand side may be any iterable: list, tuple, iterator, generator
+                calls.append({"op": "sc", "n": n, "xs": list(xs), "as": ["list", "tuple", "iter", "gen"][len(calls) % 4]})
     for p in targets:
         calls.append({"op": "ctor", "p": p, "cs": None})
         calls.append({"op": "ctor", "p": p, "cs": []})
@@ -87,7 +88,7 @@ def random_call(rng, k, nonnode=True):
             xs = list(dict.fromkeys(xs))
         if nonnode and rng.random() < 0.05:
             xs.insert(rng.randrange(len(xs) + 1), "x")
-        return {"op": "sc", "n": rng.choice(nodes), "xs": xs}
+        return {"op": "sc", "n": rng.choice(nodes), "xs": xs, "as": rng.choice(["list", "list", "tuple", "iter", "gen"])}
     if r < 0.85:
         return {"op": "dc", "n": rng.choice(nodes)}
     cs = rng.choice([None, None, [], "x" if rng.random() < 0.2 else None,
